@@ -122,7 +122,19 @@ pub fn c11(seed: u64, budget: usize) -> Report {
             let m = *r.pick(&STD7); let t = *r.pick(&TC14); let p = *r.pick(&CP11);
             let cfg = cfg_of(bd, ssx, ssy, full, mc_of(m).unwrap(), tc_of(t).unwrap(), cp_of(p).unwrap());
             let max = (1u64 << bd) - 1;
-            let logical: [Vec<u16>; 3] = [(0..w * h).map(|_| r.below(max + 1) as u16).collect(), (0..(w >> ssx) * (h >> ssy)).map(|_| r.below(max + 1) as u16).collect(), (0..(w >> ssx) * (h >> ssy)).map(|_| r.below(max + 1) as u16).collect()];
+            let mut logical: [Vec<u16>; 3] = [(0..w * h).map(|_| r.below(max + 1) as u16).collect(), (0..(w >> ssx) * (h >> ssy)).map(|_| r.below(max + 1) as u16).collect(), (0..(w >> ssx) * (h >> ssy)).map(|_| r.below(max + 1) as u16).collect()];
+            // half of the images are made of runs of a few colours (exact black, exact white, two random ones), constant per chroma
+            // block: a conversion that carries state from one pixel to the next (caches, run-length shortcuts) shows up here
+            if r.below(2) == 0 {
+                let k = 1u64 << (bd - 8); let mid = (1u64 << (bd - 1)) as u16;
+                let (blk, wht) = if full { (0u16, max as u16) } else { ((16 * k) as u16, (235 * k) as u16) };
+                let pal: [[u16; 3]; 4] = [[blk, mid, mid], [wht, mid, mid], [r.below(max + 1) as u16, r.below(max + 1) as u16, r.below(max + 1) as u16], [r.below(max + 1) as u16, r.below(max + 1) as u16, r.below(max + 1) as u16]];
+                let (cw, ch) = (w >> ssx, h >> ssy); let mut cur = if r.below(2) == 0 { 0 } else { r.below(4) as usize };
+                for cy in 0..ch { for cx in 0..cw {
+                    if r.below(5) < 2 { cur = r.below(4) as usize; }
+                    logical[1][cy * cw + cx] = pal[cur][1]; logical[2][cy * cw + cx] = pal[cur][2];
+                    for dy in 0..(1usize << ssy) { for dx in 0..(1usize << ssx) { logical[0][((cy << ssy) + dy) * w + (cx << ssx) + dx] = pal[cur][0]; } } } }
+            }
             let desc = format!("C11 {:?} {}x{} u16={}", cfg, w, h, u16s);
             // every plane gets its own padding (U and V need not share a stride)
             let vp = [0usize, 1, 8, 17, 33, 64, 70];
@@ -248,7 +260,37 @@ pub fn c14(_seed: u64) -> Report {
         if std7 && t14 && p11 && !(okk(y2l) && okk(y2x)) { rep.fail("supported triple rejected", l.clone(), o.clone(), "".into()); }
         let exp = supported_m(m, p); if okk(y2r) != exp.is_ok() { rep.fail("YUV<->RGB support differs from the documented table", l.clone(), o.clone(), format!("{:?}", exp)); }
     }
-    // a result does not depend on metadata the conversion does not use
+    // a result does not depend on metadata the conversion does not use: with a standard matrix, YUV<->RGB gives bit-identical
+    // results under every transfer and primaries tag - including samples in the head/foot room of the limited range and the
+    // extreme codes, at 8 and 10 bit
+    {
+        let mut r = Rng::new(11);
+        for m in STD7 { for full in [false, true] { for bd in [8u8, 10] {
+            let max = (1u32 << bd) - 1; let k = 1u32 << (bd - 8);
+            let edge = [0u32, 1, 15 * k, 16 * k, 235 * k, 236 * k, 240 * k, 241 * k, max - 1, max, max / 2 + 1];
+            let mut codes: Vec<[u32; 3]> = vec![];
+            for a in edge { for b in edge { codes.push([a, b, edge[(a as usize + b as usize) % edge.len()]]); codes.push([b, edge[(a as usize * 3 + 1) % edge.len()], a]); } }
+            for _ in 0..60 { codes.push([r.below(max as u64 + 1) as u32, r.below(max as u64 + 1) as u32, r.below(max as u64 + 1) as u32]); }
+            let mk = |t: TransferCharacteristic, p: ColorPrimaries| cfg_of(bd, 0, 0, full, mc_of(m).unwrap(), t, p);
+            let base_cfg = mk(TransferCharacteristic::BT1886, ColorPrimaries::BT709);
+            let base = Rgb::try_from(&yuv444::<u16>(&codes, base_cfg)).unwrap().into_data();
+            let base_back = codes_of(&Yuv::<u16>::try_from((&Rgb::new(base.clone(), codes.len(), 1, TransferCharacteristic::BT1886, ColorPrimaries::BT709).unwrap(), base_cfg)).unwrap());
+            for t in TCS.iter().filter(|x| x.0 != "Unspecified") { for p in CPS.iter().filter(|x| x.0 != "Unspecified") {
+                rep.evaluated += 1;
+                let desc = format!("independence {} full={} bd={} transfer={} primaries={}", m, full, bd, t.0, p.0);
+                match Rgb::try_from(&yuv444::<u16>(&codes, mk(t.1, p.1))) {
+                    Ok(o) => { if let Some(i) = (0..codes.len()).find(|&i| bits(&[o.data()[i]]) != bits(&[base[i]])) {
+                        rep.fail("YUV->RGB with a standard matrix depends on transfer/primaries", format!("{} codes {:?}", desc, codes[i]), format!("{:?}", o.data()[i]), format!("{:?}", base[i])); } }
+                    Err(e) => rep.fail("YUV->RGB with a standard matrix rejected because of transfer/primaries", desc.clone(), format!("{:?}", e), "ok".into()),
+                }
+                match Rgb::new(base.clone(), codes.len(), 1, TransferCharacteristic::BT1886, ColorPrimaries::BT709).map(|img| Yuv::<u16>::try_from((&img, mk(t.1, p.1)))) {
+                    Ok(Ok(y)) => { let back = codes_of(&y); if let Some(i) = (0..codes.len()).find(|&i| back[i] != base_back[i]) {
+                        rep.fail("RGB->YUV with a standard matrix depends on transfer/primaries", format!("{} pixel {:?}", desc, base[i]), format!("{:?}", back[i]), format!("{:?}", base_back[i])); } }
+                    other => rep.fail("RGB->YUV with a standard matrix rejected because of transfer/primaries", desc.clone(), format!("{:?}", other.map(|x| x.map(|_| ()))), "ok".into()),
+                }
+            } }
+        } } }
+    }
     let mut r = Rng::new(7);
     for m in STD7 { for _ in 0..40 {
         let c = [r.below(256), r.below(256), r.below(256)];
